@@ -63,3 +63,11 @@ func (f *VFSFile) IndexSnapshot() VFSIndexState {
 		LockType:       int(f.lockType),
 	}
 }
+
+// PurgePageCache empties the LRU page cache so that the next reads go through
+// the index to the replica (cold-cache reads).
+func (f *VFSFile) PurgePageCache() {
+	if f.cache != nil {
+		f.cache.Purge()
+	}
+}
